@@ -74,6 +74,33 @@ def sh(cmd, cwd=None, env=None, timeout=None, stdin=None):
     return p.returncode, p.stdout, p.stderr
 
 
+def run_stream(cmd, ops_path, out_path, env=None, timeout=1800):
+    """run a line-protocol process over the ops file; stdout goes to a FILE so that what was answered before a hang or
+    a crash is preserved.  Returns (rc, text, stderr_tail, timed_out)."""
+    e = dict(os.environ)
+    e["CARGO_NET_OFFLINE"] = "true"
+    if env:
+        e.update(env)
+    timed_out = False
+    with open(ops_path) as fin, open(out_path, "w") as fout, open(out_path + ".err", "w") as ferr:
+        p = subprocess.Popen(cmd, stdin=fin, stdout=fout, stderr=ferr, env=e, start_new_session=True)
+        try:
+            rc = p.wait(timeout=timeout)
+        except subprocess.TimeoutExpired:
+            timed_out = True
+            try:
+                os.killpg(p.pid, 9)
+            except Exception:
+                p.kill()
+            p.wait()
+            rc = -9
+    with open(out_path) as f:
+        text = f.read()
+    with open(out_path + ".err") as f:
+        err = f.read()[-600:]
+    return rc, text, err, timed_out
+
+
 class Lock:
     def __init__(self, name):
         os.makedirs(WORK, exist_ok=True)
@@ -216,7 +243,7 @@ def minimal_history(ops_path, v, tfm_bin):
             return True
         return k < len(b) and b[k] not in ("skip", "") and a[k] != "skip" and a[k].split("\t")[0] != b[k]
     try:
-        if str(v.get("impl", "")).startswith("<crash"):
+        if str(v.get("impl", "")).startswith(("<crash", "<does not terminate")):
             return [], "the implementation run crashed; the op line is the first one without an answer"
         if fails([v["op"]]):
             return [], "the op line fails on its own"
@@ -456,22 +483,25 @@ def run_check(prop, tier, seed):
         stats_path = os.path.join(WORK, f"{prop}.{tier}.stats.json")
         # three runs side by side: the implementation, the implementation again under a second thread-pool size
         # (RAYON_NUM_THREADS=3: not a power of two, not a divisor of the usual sizes), and the Lean model
+        # wall-clock limits: a changed implementation may loop forever on some op - the stream is then cut at the first
+        # unanswered line and that op is reported ("does not terminate")
+        stream_limit = int(os.environ.get("VERIF_STREAM_TIMEOUT", "2700" if search_tier == "thorough" else "900"))
+
         def _run_impl():
-            with open(ops_path) as fin:
-                return sh([TFH, "run", "--stats", stats_path], stdin=fin, env=env, timeout=7200)
+            return run_stream([TFH, "run", "--stats", stats_path], ops_path, os.path.join(WORK, f"{prop}.{tier}.impl.out"), env=env, timeout=stream_limit)
 
         def _run_impl_t3():
-            with open(ops_path) as fin:
-                return sh([TFH, "run"], stdin=fin, env=dict(env, **ALT_ENV), timeout=7200)
+            return run_stream([TFH, "run"], ops_path, os.path.join(WORK, f"{prop}.{tier}.impl3.out"), env=dict(env, **ALT_ENV), timeout=stream_limit)
 
         def _run_model():
-            with open(ops_path) as fin:
-                return sh([tfm_bin], stdin=fin, timeout=7200)
+            return run_stream([tfm_bin], ops_path, os.path.join(WORK, f"{prop}.{tier}.model.out"), timeout=2 * stream_limit)
         with ThreadPoolExecutor(max_workers=3) as ex3:
             f1, f2, f3 = ex3.submit(_run_impl), ex3.submit(_run_impl_t3), ex3.submit(_run_model)
-            rci, iout, ierr = f1.result()
-            rci2, iout2, ierr2 = f2.result()
-            rcm, mout, merr = f3.result()
+            rci, iout, ierr, impl_timed_out = f1.result()
+            rci2, iout2, ierr2, impl2_timed_out = f2.result()
+            rcm, mout, merr, model_timed_out = f3.result()
+        if impl_timed_out or impl2_timed_out or model_timed_out:
+            notes.append(f"stream time limit {stream_limit}s hit: implementation={impl_timed_out} implementation-under-{ALT_TAG}={impl2_timed_out} model={model_timed_out}")
         impl = iout.split("\n")
         impl2 = iout2.split("\n")
         model = mout.split("\n")
@@ -482,7 +512,8 @@ def run_check(prop, tier, seed):
             k = min(len([x for x in impl if x]), len([x for x in model if x]))
             side = "implementation" if len([x for x in impl if x]) <= len([x for x in model if x]) else "model"
             if k < len(lines):
-                disagreements.append((lines[k], "<crash:" + side + ">", "<no output>"))
+                what = "<does not terminate:" if (impl_timed_out and side == "implementation") or (model_timed_out and side == "model") else "<crash:"
+                disagreements.append((lines[k], what + side + ">", "<no output>"))
             lines = lines[:k]
         try:
             with open(stats_path) as f:
